@@ -34,12 +34,13 @@ RULE = ("op lines from one seeded PRNG: seeds 16..64 bytes (+ out-of-range), eve
         "keys, forced versions; every stream is run on the Python backend and on libsecp256k1; a case is "
         "non-trivial when the implementation answered (did not refuse); distinct = distinct (stream, op line)")
 TRUSTED = [
-    "HMAC-SHA512 / SHA-256 / RIPEMD-160 of the model are validated against hashlib each run, not verified",
+    "HMAC-SHA512 / SHA-256 / RIPEMD-160 / SHAKE256 (Model/C07/Shake256.lean) of the model are validated against hashlib each run, not verified",
     "no curve-level assumption is left for secp256k1: cofactor one (Btc.E2E.secpCofactorOne), primality of p and n, the "
     "non-zero discriminant and Lawful (opsSub secpOk) (C01) are all PROVED; the `*_secp256k1` theorems carry T1/T2/T3 to the "
     "executed Btc.EC.ops secp256k1 with no hypothesis on the curve (the generic `*_ec_cofactor_one` forms keep `hcof`)",
     "hand-written BIP32 / der_path models (Model/C07) are tied by correspondence only",
-    "the invalid-child branches (IL >= n, zero child, infinity) are reached with a stubbed hmac.new on both sides",
+    "the invalid-child / invalid-master-key branches (IL >= n, zero child, infinity) and the BIP85 WIF / XPRV key-range refusals are reached with a stubbed hmac.new on both sides",
+    "the BIP85 dice model reads a budget of 64*rolls+256 trials and answers `fuel` beyond it (the code reads on); never hit",
 ]
 ASSUMPTIONS = ["secp256k1 only (BIP32 is defined for no other curve)",
                "path text restricted to Latin-1 in the der_path model"]
@@ -232,6 +233,16 @@ def impl(line: str) -> str:
             return "err " + kind(e)
     if op == "bip32.root":
         return _x(lambda: bip32.rootxprv_from_seed_(unhx(t[1]), unhx(t[2])))
+    if op == "bip32.ser":
+        try:
+            return "ok " + hx(xof(t[1:7]).serialize())
+        except Exception as e:  # noqa: BLE001
+            return "err any" if common.err_class(e) == "value" else "err " + kind(e)
+    if op == "bip32.parse":
+        try:
+            return "ok " + xtok(BIP32KeyData.parse(unhx(t[1])))
+        except Exception as e:  # noqa: BLE001
+            return "err any" if common.err_class(e) == "value" else "err " + kind(e)
     if op == "bip32.rootm":
         with mac(t[1]):
             return _x(lambda: bip32.rootxprv_from_seed_(unhx(t[2]), unhx(t[3])))
@@ -971,6 +982,28 @@ def run(ctx):
         _both(ctx, "bip32.neuter-fp-valid", lines)
 
 
+    def s15_serialization():  # the 78 bytes: serialize / parse on valid and malformed keys, mutated byte strings
+        lines = []
+        for _ in range(ctx.n(150, 2500)):
+            x = rng.choice(allk)
+            if rng.random() < 0.3:
+                x = malform(rng, x)
+            lines.append(f"bip32.ser {xtok(x)}")
+            try:
+                b = bytearray(x.serialize(check_validity=False))
+            except Exception:  # noqa: BLE001 - a field that cannot be written (depth 256, index 2^32)
+                continue
+            r = rng.random()
+            if r < 0.25 and b:
+                b[rng.randrange(len(b))] ^= 1 << rng.randrange(8)
+            elif r < 0.32:
+                b = b[:-1] if rng.random() < 0.5 else b + b"\x00"
+            elif r < 0.4 and len(b) >= 13:
+                b[4] = 0                                     # depth 0 with whatever fingerprint / index was there
+            if b:
+                lines.append(f"bip32.parse {hx(bytes(b))}")
+        _both(ctx, "bip32.serialization", lines)
+
     def s07_crack():  # crack
         lines = []
         for _ in range(ctx.n(60, 1000)):
@@ -1201,7 +1234,7 @@ def run(ctx):
         lines += c07_bip85.forced_lines(rng, good, ctx.n(40, 400), xtok, N)
         _both(ctx, "bip85.apps", lines)
 
-    for fn in (s14_bip85_applications, s01_version_pairing, s02_official_vectors, s03_master_key, s04_derive_public, s05_invalid_child, s06_neuter_fingerprint, s07_crack, s08_account_level, s09_the_laws, s10_path_spellings, s11_thin_layers,
+    for fn in (s14_bip85_applications, s15_serialization, s01_version_pairing, s02_official_vectors, s03_master_key, s04_derive_public, s05_invalid_child, s06_neuter_fingerprint, s07_crack, s08_account_level, s09_the_laws, s10_path_spellings, s11_thin_layers,
                s12_hardened_boundary, s13_bip85_leading_zero):
         _guard(ctx, fn)
 
